@@ -33,6 +33,9 @@ SPEC = {
         ("mahf::components::archive::ElitistArchiveUpdate", "mahf::components::Component", {"mahf::components::archive::ElitistArchive<P>": ("empty",)}),
         ("mahf::components::evaluation::BestIndividualUpdate", "mahf::components::Component", {"mahf::state::common::BestIndividual<P>": ("empty",)}),
     ],
+    # a fresh matrix of the problem's dimension (3 in the scenario) with every trail the configured default
+    "C19": [("mahf::components::generative::AcoGeneration", "mahf::components::Component",
+             {"mahf::components::generative::PheromoneMatrix": ("multiset", [3] + [("field", "default_pheromones")] * 9)})],
     "C10": [
         ("mahf::conditions::common::LessThanN", "mahf::conditions::Condition", {"mahf::state::common::Progress<L>": ("const", 0.0)}),
         ("mahf::conditions::common::ChangeOf", "mahf::conditions::Condition", {"mahf::conditions::common::Previous<<L as lens::AnyLens>::Target>": ("empty",)}),
@@ -87,6 +90,8 @@ def evaluate_init(F, adt, trait, present=False):
             return Sym("entry:" + str(ty))
         if k in ("mahf::state::registry::StateRegistry::contains", "mahf::state::registry::StateRegistry::has", "mahf::state::registry::StateRegistry::contains_at_top"):
             return present
+        if k == "mahf::problems::VectorProblem::dimension":
+            return 3
         a0 = load(interp, env, args[0]) if args else None
         if k == "mahf::state::registry::StateRegistry::set_value" and present:
             seen.append((ty, leaves(interp.mstate, load(interp, env, args[1]))))
@@ -114,6 +119,16 @@ def evaluate_init(F, adt, trait, present=False):
     return fn, it.run(), seen
 
 
+def _expand(exp):
+    return [Sym("field:" + x[1]) if isinstance(x, tuple) else x for x in exp[1]]
+
+
+def _describe(exp):
+    import collections
+    c = collections.Counter("the configured `%s`" % x[1] if isinstance(x, tuple) else repr(x) for x in exp[1])
+    return ", ".join("%s x %s" % (n, k) if n > 1 else k for k, n in c.items())
+
+
 def check_for(ctx, prop):
     F = ctx.facts
     n = 0
@@ -139,7 +154,10 @@ def check_for(ctx, prop):
                     good, why = False, "inserts %s %d times" % (ty, len(vals))
                     break
                 lv = vals[0]
-                if exp[0] == "field":
+                if exp[0] == "multiset":
+                    okv = sorted(map(str, lv)) == sorted(map(str, _expand(exp)))
+                    desc = "exactly the values %s" % _describe(exp)
+                elif exp[0] == "field":
                     okv = lv == [Sym("field:" + exp[1])]
                     desc = "built from exactly the configured `%s`" % exp[1]
                 elif exp[0] == "const":
@@ -166,10 +184,10 @@ def check_for(ctx, prop):
                 if (adt, ty) in KEEPS:
                     continue
                 lvs = got2.get(ty, [])
-                exp_l = [Sym("field:" + exp[1])] if exp[0] == "field" else [exp[1]] if exp[0] == "const" else []
-                if lvs != [exp_l]:
+                exp_l = [Sym("field:" + exp[1])] if exp[0] == "field" else [exp[1]] if exp[0] == "const" else _expand(exp) if exp[0] == "multiset" else []
+                if [sorted(map(str, l)) for l in lvs] != [sorted(map(str, exp_l))]:
                     good2, why2 = False, "on a state that already holds %s (left by an earlier run / initialisation) init %s; expected it to be reset to %s" % (
-                        ty, "leaves it as it is" if not lvs else "stores %s" % [[str(x) for x in l] for l in lvs], "the configured `%s`" % exp[1] if exp[0] == "field" else "its initial value")
+                        ty, "leaves it as it is" if not lvs else "stores %s" % [[str(x) for x in l] for l in lvs], "the configured `%s`" % exp[1] if exp[0] == "field" else _describe(exp) if exp[0] == "multiset" else "its initial value")
                     break
         ctx.check(good2, prop + ".INIT", fn.key, "init-resets-used-state", why2 or "ok", loc=fn.loc())
     ctx.count("init_specs", n)
